@@ -596,7 +596,8 @@ namespace
                 // split into a static_vector<static_string<4>, 3>: more tokens than 3 and tokens longer than 4 must be
                 // dropped / cut, never written outside the result
                 char delim = (char)('a' + val % 4);
-                if (val % 2)
+                if (val % 5 == 4) { delim = '\0'; probe("split_at_zero_bytes"); } // records separated by NUL: the string carries its own length
+                else if (val % 2)
                 { // the commonest of a..d in the string: as many tokens as this string can give
                     size_t cnt[4] = {0, 0, 0, 0}, best = 0;
                     for (char ch : m) if (ch >= 'a' && ch <= 'd') cnt[ch - 'a']++;
@@ -699,7 +700,7 @@ namespace
         Plan generate(Rng &r, Tier tier) override
         {
             Plan p;
-            p.cfg = {(int64_t)r.below(4), (int64_t)r.below(2), (int64_t)r.below(4)};
+            p.cfg = {(int64_t)r.below(4), (int64_t)r.below(2), (int64_t)r.below(6)};
             int n = (int)r.range(3, tier == THOROUGH ? 60 : 30);
             if (r.chance(1, 40)) n *= 25; // a long history: what only accumulates over hundreds or thousands of operations
             for (int i = 0; i < n; i++) p.ops.push_back({(int64_t)r.below(T_N), 0, (int64_t)r.below(40), 0, (int64_t)r.below(1000)});
@@ -709,12 +710,15 @@ namespace
         {
             Result res;
             simalloc::st().reset((int)p.c(0), p.c(1) != 0);
-            switch ((int)mod(p.c(2), 4))
+            // (capacities 7 and 15: the character array ends on a word boundary, the size member follows it without padding)
+            switch ((int)mod(p.c(2), 6))
             {
             case 0: run_ss<1>(p, tr, res); break;
             case 1: run_ss<2>(p, tr, res); break;
             case 2: run_ss<4>(p, tr, res); break;
-            default: run_ss<8>(p, tr, res); break;
+            case 3: run_ss<8>(p, tr, res); break;
+            case 4: run_ss<7>(p, tr, res); break;
+            default: run_ss<15>(p, tr, res); break;
             }
             if (simalloc::live_blocks() != 0) violate("C14/harness", "simulated memory not released");
             return res;
